@@ -550,6 +550,10 @@ class Tracer:
             except SyntaxError:
                 code = None
             self.sites.append(dict(st, k=k, code=code))
+        # insertion sites of the iterated sets (round 3): reached or not, by line
+        for k, st in enumerate(spec.get("inserts") or []):
+            self.sites.append(dict(st, k=k, code=None, insert=True))
+        self.set_elems = spec.get("set_elems") or {}
         self.by_code = {}
         self.cur = None
         self.datapacks = []
@@ -588,6 +592,9 @@ class Tracer:
                 ln = frame.f_lineno
                 for s in hit:
                     if s["line"] <= ln <= s["end_line"]:
+                        if s.get("insert"):
+                            self.cur["inserts"][s["k"]] = 1
+                            continue
                         n = -1
                         if s["code"] is not None:
                             try:
@@ -599,7 +606,7 @@ class Tracer:
         return local
 
     def begin(self):
-        self.cur = {"sites": {}}
+        self.cur = {"sites": {}, "inserts": {}}
         self.datapacks.clear()
 
     def end(self):
@@ -608,7 +615,7 @@ class Tracer:
         h = Header()
         cur["mutated"] = [f for f in self.fields
                           if json.dumps(fingerprint(getattr(h, f, None), 4, frozenset()), sort_keys=True, default=str) != self.baseline[f]]
-        sizes = {}
+        sizes, type_errors = {}, []
         objs = [("Header", h)] + [("DataPack", d) for d in self.datapacks] + [("Lexer", getattr(d, "lexer", None)) for d in self.datapacks]
         for d in self.datapacks:
             data = getattr(d, "data", None)
@@ -627,7 +634,14 @@ class Tracer:
                     continue
                 if isinstance(v, (set, frozenset)):
                     sizes[f"{owner}.{attr}"] = max(sizes.get(f"{owner}.{attr}", 0), len(v))
+                    want = self.set_elems.get(attr)
+                    if want in ("int", "str", "Path"):
+                        for x in v:
+                            good = (type(x) is int) if want == "int" else isinstance(x, str) if want == "str" else isinstance(x, os.PathLike)
+                            if not good:
+                                type_errors.append(dict(set=f"{owner}.{attr}", annotated=f"set[{want}]", element=repr(x)[:60], type=type(x).__name__))
         cur["set_sizes"] = sizes
+        cur["set_type_errors"] = type_errors[:5]
         self.datapacks.clear()
         return cur
 
